@@ -522,6 +522,10 @@ func init() {
 					{{{K: "ReadDir", P: "/w/d"}}, {{K: "Link", P: "/w/d/a", Q: "/w/d/y"}}, {{K: "ReadDir", P: "/w"}}},
 					{{{K: "ReadDir", P: "/w"}}, {{K: "Link", P: "/w/b", Q: "/w/y"}}},
 					{{{K: "WalkDir", P: "/w"}}, {{K: "Rename", P: "/w/d", Q: "/w/a/d"}}, {{K: "RemoveAll", P: "/w/a"}}},
+					// a rename that inverts the ancestor relation of the two directories a Link/Rename is about to lock
+					{{{K: "Link", P: "/w/d/a", Q: "/w/a/y"}}, {{K: "Rename", P: "/w/a", Q: "/w/d/z"}}, {{K: "ReadDir", P: "/w/d"}}},
+					{{{K: "Rename", P: "/w/d/a", Q: "/w/a/y"}}, {{K: "Rename", P: "/w/a", Q: "/w/d/z"}}, {{K: "ReadDir", P: "/w/d"}}},
+					{{{K: "Link", P: "/w/b", Q: "/w/a/y"}}, {{K: "Rename", P: "/w/d", Q: "/w/a/z"}}, {{K: "Lstat", P: "/w/a/z"}, {K: "ReadDir", P: "/w/a"}}},
 				}
 				for ti, tree := range trees {
 					for _, progs := range lockOrder {
